@@ -130,6 +130,19 @@ def doc_sets(tier, seed, per_shape, n_lists):
     spec = special_docs()
     for label, d in spec:
         yield label, [d]
+    # several documents with equal content but different ids (same template built twice, a document and its
+    # clone): "one document per exported document with equal ids" must not depend on content differing
+    for k, d in enumerate(gen[1:6:2]):
+        with h.quiet():
+            twin = d.clone()
+        yield 'twin[%d]' % k, [d, twin]
+    with h.quiet():
+        a, b = odml.Document(author='t'), odml.Document(author='t')
+        for doc in (a, b):
+            sec = odml.Section(name='s', type='t', parent=doc)
+            odml.Property(name='p', values=[1, 2], parent=sec)
+    yield 'same-template', [a, b]
+    yield 'same-template+1', [a, b, gen[2]]
     rnd = random.Random(seed + 17)
     pool = gen + [d for lab, d in spec if lab != 'tuples']
     for k in range(n_lists):
